@@ -7,6 +7,7 @@ mod c05;
 mod c06;
 mod c07;
 mod c08;
+mod c09;
 mod c10;
 mod c11;
 mod c12;
@@ -87,6 +88,7 @@ fn main() {
             "C13" => c13::replay(&v["replay"]),
             "C14" => c14::replay(&v["replay"]),
             "C15" => c15::replay(&v["replay"]),
+            "C09" => c09::replay(&v["replay"]),
             "C16" => c16::replay(&v["replay"]),
             "C18" => c18::replay(&v["replay"]),
             "C12" => c12::replay(&v["replay"]),
@@ -112,6 +114,7 @@ fn main() {
         "C13" => c13::run(&mut run),
         "C14" => c14::run(&mut run),
         "C15" => c15::run(&mut run),
+        "C09" => c09::run(&mut run),
         "C16" => c16::run(&mut run),
         "C18" => c18::run(&mut run),
         "C12" => c12::run(&mut run),
